@@ -229,6 +229,12 @@ def units(tier, seed=0):
                                        tag='/isolation/after-foreign-stepped/%d' % i, foreign_before=fc,
                                        vmsa=own.get('vmsa', False)):
             us.append(u)
+    # ... and with this instance's MPU enabled (one symbolic region), where the memory architecture decides every access
+    for u in famcheck.family_units({ISA['LdrImmediateArmA1'].family}, [7], T, only=['LdrImmediateArmA1', 'StrImmediateArmA1'],
+                                   tag='/isolation/after-foreign-stepped/mpu', foreign_before=dict(arch=7, vmsa=True),
+                                   mpu=1, mpu_rsize=[4]):
+        u.max_seconds = 3000
+        us.append(u)
     return us
 
 
